@@ -273,6 +273,12 @@ class Functor(pg_object.Object, utils.Functor):
     for relative_path, update in field_updates.items():
       assert relative_path
       if len(relative_path) != 1:
+        # A change inside the value of an argument: the argument holds a value
+        # of its own from now on, even if it was left to its default before.
+        arg_name = str(relative_path.keys[0])
+        self._default_args.discard(arg_name)
+        self._non_default_args.add(arg_name)
+        self._specified_args.add(arg_name)
         continue
       arg_name = str(relative_path)
       if update.field.default_value == update.new_value:
